@@ -230,7 +230,7 @@ def fault_kind(f):
 def execute(plan):
     ji = plan["job"]
     job, g = JOBS[ji], GOLDEN[ji]
-    root = runner.fresh_dir("of-%d-%016x" % (os.getpid(), fnv1a(json.dumps(plan, sort_keys=True))))
+    root = runner.fresh_dir("of-%07d-%016x" % (os.getpid(), fnv1a(json.dumps(plan, sort_keys=True))))
     common.materialise(job, root)
     _decoys(job, root)
     if plan.get("selfcheck"):
